@@ -23,7 +23,7 @@ RULE = ("random accepted configurations (7 graft types, beta1, beta2 incl. 1, ne
         "x decoupling, lr decoupling x {constant, halving schedule}, block size {2,3,4,8}, merge limit {1,4,6,16,4096} x best-effort "
         "on/off, preconditioner type (3), exponent override {0,2,3}, start step 0..3, statistics/preconditioner intervals 1..3, "
         "skip thresholds, eps {1e-2,1e-3,1e-6} relative/absolute, Newton/eigh, RMSProp clipping) x trees of 1-3 leaves of rank "
-        "0-4 incl. unit dims x histories of T=6 (thorough 12) steps from {scale-varying 1e-2..1e2, repeated, zero-steps, low-rank} "
+        "0-4 incl. unit dims x histories of T=6 (thorough 12) steps from {scale-varying 1e-2..1e2, repeated, zero-steps, low-rank, entry-sparse with exact zeros} "
         "x modes {jit, pmap+int16/int8 quantised, sharded on a 2-device mesh}.  One case = one (config, tree, history, mode); "
         "evaluations counts transitions; non-trivial = case with >=1 post-warm-up transition on a preconditioned leaf; distinct by hash")
 ASSUMPTIONS = [
@@ -35,7 +35,7 @@ DECIDING = ["transitions", "stats_checked", "update_checked", "momentum_checked"
 MIN_NONTRIVIAL = 20
 MAX_SKIP_FRACTION = 0.35
 TIMEOUT = {"quick": 1500, "thorough": 7200}
-FAMS = ["scales", "scales", "repeated", "zeros", "lowrank"]
+FAMS = ["scales", "scales", "repeated", "zeros", "lowrank", "sparse"]
 
 
 def shards(tier, seed):
